@@ -1051,3 +1051,54 @@ def trace_through(body, local, transparent=TRANSPARENT_CALLS + RESULT_ADAPTERS, 
                     continue
         break
     return allsteps
+
+
+def sccs(graph, nodes):
+    """Tarjan SCCs (iterative) of the sub-graph induced by `nodes`; returns list of lists;
+    only components that contain a cycle (size > 1 or a self loop)."""
+    nodes = set(nodes)
+    index = {}
+    low = {}
+    onstack = set()
+    stack = []
+    out = []
+    counter = [0]
+    for root in sorted(nodes):
+        if root in index:
+            continue
+        work = [(root, iter(sorted(x for x in graph.get(root, ()) if x in nodes)))]
+        index[root] = low[root] = counter[0]
+        counter[0] += 1
+        stack.append(root)
+        onstack.add(root)
+        while work:
+            v, it = work[-1]
+            adv = False
+            for w in it:
+                if w not in index:
+                    index[w] = low[w] = counter[0]
+                    counter[0] += 1
+                    stack.append(w)
+                    onstack.add(w)
+                    work.append((w, iter(sorted(x for x in graph.get(w, ()) if x in nodes))))
+                    adv = True
+                    break
+                elif w in onstack:
+                    low[v] = min(low[v], index[w])
+            if adv:
+                continue
+            work.pop()
+            if work:
+                u = work[-1][0]
+                low[u] = min(low[u], low[v])
+            if low[v] == index[v]:
+                comp = []
+                while True:
+                    w = stack.pop()
+                    onstack.discard(w)
+                    comp.append(w)
+                    if w == v:
+                        break
+                if len(comp) > 1 or v in graph.get(v, ()):
+                    out.append(sorted(comp))
+    return out
